@@ -23,26 +23,26 @@ FORMS = [
                   ["transparent", "#00000000", "rgba(0,0,0,0)"], ["#12345678", "rgba(18,52,86,120)"]]),
   ("backgroundColor", "s", [["lime", "#00ff00", "rgb(0,255,0)"], ["transparent"]]),
   ("extent", "r", [["auto", "100% 100%"], ["50% 50%", "16c 7.5c", "50rw 50rh", "320px 240px"]]),
-  ("origin", "r", [["auto", "0% 0%", "0px 0px", "0c 0c"], ["10% 20%", "3.2c 3c", "10rw 20rh", "64px 96px"]]),
+  ("origin", "r", [["auto", "0% 0%", "0px 0px", "0c 0c"], ["10% 20%", "3.2c 3c", "10rw 20rh", "64px 96px"], [".5% .25%", "0.5% 0.25%"]]),
   ("padding", "r", [["1c", "1c 1c", "1c 1c 1c", "1c 1c 1c 1c"], ["1c 2c", "1c 2c 1c", "1c 2c 1c 2c"], ["1% 2% 3% 4%"]]),
   ("displayAlign", "r", [["before"], ["center"], ["after"]]),
   ("overflow", "r", [["visible"], ["hidden"]]),
   ("showBackground", "r", [["always"], ["whenActive"]]),
   ("writingMode", "r", [["lr", "lrtb"], ["rl", "rltb"], ["tb", "tbrl"], ["tblr"]]),
-  ("opacity", "r", [["0.5", "0.50"], ["1", "1.0"], ["0"]]),
+  ("opacity", "r", [["0.5", "0.50", ".5"], ["1", "1.0"], ["0"]]),
   ("luminanceGain", "r", [["1.5", "1.50"], ["2"]]),
-  ("disparity", "r", [["1%"], ["-2%"], ["4px"]]),
+  ("disparity", "r", [["1%"], ["-2%"], ["4px"], ["-.25%", "-0.25%"]]),
   ("textAlign", "p", [["start"], ["center"], ["end"], ["left"], ["right"]]),
   ("lineHeight", "p", [["normal"], ["125%", "1.25em", "1.25c", "40px"]]),
   ("multiRowAlign", "p", [["start"], ["center"], ["end"], ["auto"]]),
-  ("linePadding", "p", [["0.5c"], ["0c"]]),
+  ("linePadding", "p", [["0.5c", ".5c", "+.5c", "0.50c", "00.5c"], ["0c", "0.0c", ".0c"]]),
   ("fillLineGap", "p", [["true"], ["false"]]),
   ("rubyReserve", "p", [["none"], ["both"], ["before"], ["after"], ["outside"], ["both 1em", "both 1c"], ["outside 50%"]]),
-  ("shear", "p", [["0%"], ["16.67%"], ["-10%"]]),
+  ("shear", "p", [["0%"], ["16.67%"], ["-10%"], ["-.5%", "-0.5%"]]),
   ("direction", "p", [["ltr"], ["rtl"]]),
   ("fontFamily", "s", [["Arial", '"Arial"', "'Arial'"], ["default", "monospaceSerif"], ["Arial, sansSerif", "Arial,sansSerif"],
                        ["proportionalSansSerif"], ['"Times New Roman", serif']]),
-  ("fontSize", "s", [["100%", "1c", "1em", "32px"], ["150%", "1.5c", "1.5em", "48px"]]),
+  ("fontSize", "s", [["100%", "1c", "1em", "32px", "+100%", "1.0em", "032px"], ["150%", "1.5c", "1.5em", "48px"], ["50%", ".5em", "+.5c", "0.5em"]]),
   ("fontStyle", "s", [["normal"], ["italic"], ["oblique"]]),
   ("fontWeight", "s", [["normal"], ["bold"]]),
   ("textDecoration", "s", [["none", "noUnderline noLineThrough noOverline"], ["underline"], ["lineThrough"], ["overline"],
@@ -50,7 +50,7 @@ FORMS = [
   ("textEmphasis", "s", [["none"], ["auto"], ["filled", "circle", "filled circle", "circle filled", "filled circle outside"],
                          ["open sesame", "sesame open"], ["dot", "filled dot"], ["filled dot before", "before filled dot"],
                          ["open circle after"], ["circle red", "red circle", "filled circle #ff0000"], ["auto before"]]),
-  ("textOutline", "s", [["none"], ["2px"], ["red 2px", "#ff0000 2px"], ["10%", "0.1em", "0.1c"]]),
+  ("textOutline", "s", [["none"], ["2px"], ["red 2px", "#ff0000 2px"], ["10%", "0.1em", "0.1c", ".1em"]]),
   ("textShadow", "s", [["none"], ["1px 1px"], ["1px 1px 2px"], ["1px 1px red", "1px 1px #ff0000"], ["1px 1px 2px red"],
                        ["1px 1px,2px 2px", "1px 1px, 2px 2px", "1px 1px , 2px 2px"], ["1em 1em", "1c 1c"]]),
   ("textCombine", "s", [["none"], ["all"]]),
